@@ -9,6 +9,7 @@ from common import *
 from shape import ShapeRunner, gen_rings, is_gap, seq_remove, seq_insert_after, NEXT
 from absval import State, PtrVal, IntVal, CondVal, NULL, TOP, mk_const
 from lin import Lin
+from irlib import V
 import absint
 import c10_heap as H
 from c10_heap import SymInterp, cell
@@ -31,11 +32,21 @@ def specialised(fn, argno, value):
                 if s['k'] == 'index' and s['v'].get('k') == 'arg' and s['v'].get('i') == argno:
                     saved.append((s, s['v']))
                     s['v'] = {'k': 'ci', 'w': 64, 'v': value, 'u': str(value)}
+    # the index form `offset += elemsz; &base[offset]`: additions of the argument become additions of the constant
+    saved_ops = []
+    for i in fn.all_insts():
+        if i.op == 'add':
+            for k, o in enumerate(i.ops):
+                if o.k == 'arg' and o.argno == argno:
+                    saved_ops.append((i, k, o))
+                    i.ops[k] = V({'k': 'ci', 'w': i.bits, 'v': value, 'u': str(value)})
     try:
-        yield len(saved)
+        yield len(saved) + len(saved_ops)
     finally:
         for s, v in saved:
             s['v'] = v
+        for i, k, o in saved_ops:
+            i.ops[k] = o
 
 
 def F(mod, srcname):
@@ -642,7 +653,7 @@ VTR_NAMES = ('_ZN3VTrC1Ev', '_ZN3VTrC2Ev', '_ZN3VTrC1Ei', '_ZN3VTrC2Ei', '_ZN3VT
 
 
 def tyname_of(param):
-    from irlib import tyname
+    from irlib import V,  tyname
     return tyname(param['ty']['elem'])
 
 
